@@ -77,6 +77,14 @@ class Serializer(object):
             return
 
         # File case
+        tmpFile = self.__fileName + '.tmp'
+        try:
+            # A forked writer of an earlier incarnation of this node (it survives a kill of its parent)
+            # may still hold the old temporary file open: never write into the same inode.
+            os.remove(tmpFile)
+        except OSError:
+            pass
+        parentPid = os.getpid()
         if self.__useFork:
             pid = os.fork()
             if pid != 0:
@@ -84,7 +92,7 @@ class Serializer(object):
                 return
 
         try:
-            tmpFile = self.__fileName + '.tmp'
+            self.__exitIfOrphan(parentPid)
             if self.__serializer is not None:
                 self.__serializer(tmpFile, data[1:])
             else:
@@ -92,6 +100,8 @@ class Serializer(object):
                     with gzip.GzipFile(fileobj=f, mode='wb') as g:
                         pickle.dump(data, g)
 
+            # a writer whose node was killed must not publish: a later incarnation owns the files now
+            self.__exitIfOrphan(parentPid)
             atomicReplace(tmpFile, self.__fileName)
             if self.__useFork:
                 os._exit(0)
@@ -102,6 +112,10 @@ class Serializer(object):
                 os._exit(-1)
             else:
                 self.__pid = -2
+
+    def __exitIfOrphan(self, parentPid):
+        if self.__useFork and os.getppid() != parentPid:
+            os._exit(1)
 
     def deserialize(self, incoming=False):
         # incoming: the snapshot just received from the leader instead of the stored one
